@@ -1,7 +1,11 @@
 ----------------------------- MODULE MC_daemon -----------------------------
 EXTENDS Daemon
-DeltasQ == {1, 4, 5, 6}
+DeltasQ == {1, 4, 5}
 DeltasT == {1, 4, 5, 6, 994, 1000}
 BoundsQ == {3, 7}
 PhcQ == {2}
+Rep(l, p, b, m) == [kind |-> "reply", leap |-> l, refPos |-> p, b |-> b, refMatch |-> m]
+\* one representative per class of Classify x PHC relevance (the full table is decided in MC_class)
+RepQ == { Rep(1, "fresh", b, m) : b \in BoundsQ, m \in BOOLEAN } \cup
+        { Rep(3, "fresh", 3, TRUE), Rep(3, "fresh", 3, FALSE), Rep(0, "stale", 3, FALSE), Rep(4, "fresh", 3, FALSE), Rep(2, "future", 3, TRUE) }
 =============================================================================
